@@ -34,6 +34,7 @@ type atomState struct {
 	checked   map[string]bool           // node paths that were analysed (obligation exists)
 	memo      map[string]bool           // rule|guard contexts done
 	guardUsed map[string]bool
+	matched   int // number of elements matched against a look-ahead guard so far (see walk)
 }
 
 func guardKey(g []string) string { return strings.Join(g, "\x00") }
@@ -131,6 +132,7 @@ func (as *atomState) walk(n *pegNode, path string, emitted bool, guaranteed bool
 				} else {
 					rest, ok, descend := as.consume(g, k)
 					if ok {
+						as.matched++
 						kg = true
 						g = rest
 					} else if descend {
@@ -151,7 +153,13 @@ func (as *atomState) walk(n *pegNode, path string, emitted bool, guaranteed bool
 			as.checked[p] = true
 			var kem bool
 			hadGuard := len(g) > 0
+			matchedBefore := as.matched
 			kem, rest2 := as.walk(k, p, em, kg, descendGuard)
+			if len(descendGuard) > 0 && as.matched == matchedBefore && em && !kg && pa.nodeCanFail(k) && !as.failureAborts(k) {
+				// the look-ahead was handed down into k but nothing inside k matched it: k is not covered by the guard
+				// (a guard that drifted away from the body it protects), so its failure after emission is not excluded
+				as.report(k, p, "can fail after code was emitted earlier in the sequence (the look-ahead guard does not match this element)")
+			}
 			if len(descendGuard) > 0 {
 				g = rest2
 				// whatever of k was not covered by the guard and can fail after emission was reported inside
